@@ -256,6 +256,7 @@ Proof.
     destruct (take st) as [[t s1]|e] eqn:Ht; cbn [bind] in H; [|discriminate].
     inversion H; subst. right. exists t. auto.
   - destruct (alook v (l_lv st)); inversion H; subst. left; auto.
+  - destruct (rf_lookup r st); inversion H; subst. left; auto.
 Qed.
 
 Lemma low_src_err : forall x st e,
@@ -268,6 +269,7 @@ Proof.
     + inversion H; subst. destruct ix; cbn [low_ix] in Hix; [discriminate|].
       destruct (alook v (l_lv st)); [discriminate|]. inversion Hix. discriminate.
   - destruct (alook v (l_lv st)); [discriminate|]. inversion H. discriminate.
+  - destruct (rf_lookup r st); [discriminate|]. inversion H. discriminate.
 Qed.
 
 Lemma low_ix_err : forall ix st e, low_ix ix st = Err e -> e <> EOutOfRegs.
